@@ -1,4 +1,5 @@
 import BppProofs.Lemmas.TreeObs
+import BppProofs.Lemmas.GraphOrient
 /-
 Every history of operations of the tree container leaves consistent graph tables (C14) and no
 pending notification.
@@ -115,8 +116,19 @@ theorem tinv_getSubtree (t : T) (h : TInv t) (e : Bool) (n : Nat) : TInv (t.getS
   · split <;> exact h0
   all_goals exact h0
 
+theorem tinv_orientate (t : T) (h : TInv t) : TInv t.orientate.2 := by
+  have hc := G.orientate_consistent h.1
+  unfold T.orientate
+  rcases ho : t.g.orientate with ⟨u, g'⟩ | g' <;> rw [ho] at hc <;> simp only
+  · exact ⟨consistent_quiet hc, rfl⟩
+  · exact ⟨consistent_quiet hc, rfl⟩
+
 theorem tinv_step (t : T) (h : TInv t) (op : TOp) : TInv (t.step op) := by
   cases op with
+  | createNodeFromNode o => exact tinv_lift t _ (G.createNodeFromNode_consistent h.1 _)
+  | createNodeOnEdge e => exact tinv_lift t _ (G.createNodeOnEdge_consistent h.1 _)
+  | createNodeFromEdge e => exact tinv_lift t _ (G.createNodeFromEdge_consistent h.1 _)
+  | orientate => exact tinv_orientate t h
   | createNode => exact tinv_lift t _ (G.createNode_consistent h.1)
   | link a b => exact tinv_lift t _ (G.link_consistent h.1 _ _)
   | unlink a b => exact tinv_lift t _ (G.unlink_consistent h.1 _ _)
